@@ -49,6 +49,8 @@ type World struct {
 	usedContracts  map[string]*Contract
 	topContract    *Contract
 	topFrame       *Frame
+	forgetMark     int // script position before which assertions are dropped from later queries (opt forget-before-loop)
+	curLoopKeys    map[string]bool // heap keys the loop whose head is being processed may write
 	splits         []Term
 	quantFacts     []quantFact
 	loopFreshOnly  map[string]bool
@@ -718,6 +720,7 @@ type Obligation struct {
 	Kind         string // ensures | call.pre | loop.init | loop.step | frame | lemma | nopanic | smoke | vacuity
 	Goal         Term
 	Mark         int // script prefix length
+	Sliced       bool // the query was reduced to the assumptions connected to the goal
 	Prelude      string
 	Body         string
 	Expect       string // "unsat" normally; "sat" for vacuity/smoke checks
